@@ -209,6 +209,36 @@ def viol_classes(violations):
     return out
 
 
+# Layer-2 models (algo/, design-level, run by ./check --setup) that bear on each property
+LAYER2 = {
+    "C02": ["AddMul_small", "InvRing_small", "InvRing_w8"],
+    "C03": ["Knuth_small", "Div_small", "MG10_2x1_small", "MG10_3x2_small", "MG10_recip2_small"],
+    "C05": ["LimbShift_small"],
+    "C09": ["BaseConv_spigot_small", "BaseConv_le_small", "BaseConv_be_small", "Fmt_small"],
+    "C10": ["Pow_powmod_small", "Pow_addmod_small", "Lehmer_inv_small"],
+    "C11": ["Redc_small", "Redc_square_small", "Redc_square_3limb"],
+    "C12": ["Lehmer_prefix_small", "Lehmer_full_small", "Lehmer_ext_small", "Lehmer_ext_narrow"],
+    "C13": ["Pow_pow_small", "Root_small", "Log_small"],
+    "C14": ["Knuth_small", "Div_small", "MG10_2x1_small", "MG10_3x2_small", "MG10_recip2_small"],
+    "C15": ["AddMul_small"],
+    "C18": ["Float_to_small", "Float_from_small"],
+}
+
+
+def layer2_for(prop):
+    names = LAYER2.get(prop, [])
+    if not names:
+        return None
+    try:
+        with open(os.path.join(vlib.OUT, "layer2.json")) as fh:
+            last = json.load(fh)
+    except (OSError, ValueError):
+        last = {}
+    return {"note": "design-level models with the limb width as a constant, model-checked exhaustively by ./check --setup; "
+                    "they never change this check's exit code (DESIGN.md 8, algo/README.md)",
+            "instances": {n: last.get(n, "not run since the last setup") for n in names}}
+
+
 def finish(prop, tier, seed, res, t0, level, rule, assumptions, extra_cov=None, nontrivial=None):
     """Print KNOWN-FINDING / VIOLATION lines, write evidence, return exit code."""
     known = {k["id"]: k for k in load_known(prop)}
@@ -251,6 +281,9 @@ def finish(prop, tier, seed, res, t0, level, rule, assumptions, extra_cov=None, 
         "violating_events": nviol,
         "violation_classes": viol_classes(res.violations),
     }
+    l2 = layer2_for(prop)
+    if l2:
+        cov["layer2_models"] = l2
     if extra_cov:
         cov.update(extra_cov)
     cov.update(res.extra if not res.extra.get("neg_not_rejected") else
